@@ -6,6 +6,12 @@ CONSTANTS
   BareSendDiscover = TRUE
   UnbufferedSelRecvReply = FALSE
   BareSendMsg = FALSE
+  BareRetry = FALSE
+  CheckThenActIncoming = FALSE
+  BareSendConnect = FALSE
+  MaxRetry = 0
+  MaxDirect = 0
+  ConnCap = 1
   BatchCap = 1
   DiscCap = 2
   SendCap = 1
